@@ -951,3 +951,22 @@ def default_none_gets(fn) -> int:
             x.args = x.args[:1]
             n += 1
     return n
+
+
+def while_true_breaks(fn) -> int:
+    """`while True: if c: break ; B`  ->  `while not c: B`   (the loop has no else clause)"""
+    count = 0
+    for x in ast.walk(fn):
+        if isinstance(x, ast.While) and not x.orelse and isinstance(x.test, ast.Constant) and x.test.value is True and x.body:
+            first = x.body[0]
+            if isinstance(first, ast.If) and not first.orelse and len(first.body) == 1 and isinstance(first.body[0], ast.Break) and len(x.body) > 1:
+                t = first.test
+                neg = ast.UnaryOp(op=ast.Not(), operand=t)
+                if isinstance(t, ast.UnaryOp) and isinstance(t.op, ast.Not):
+                    neg = t.operand
+                ast.copy_location(neg, t)
+                x.test = neg
+                x.body = x.body[1:]
+                ast.fix_missing_locations(x)
+                count += 1
+    return count
